@@ -357,6 +357,9 @@ class Result:
 def _skolemize_neg(goal):
     """not(goal) in negation normal form with its existentials Skolemized (z3 'nnf' tactic), so that the
     Skolem constants are visible as instantiation candidates for the reduction lemmas."""
+    if not _has_quantifiers([goal]):
+        # nothing to Skolemize; NNF of a large if-then-else nest only blows the goal up (and hides its syntactic match with hypotheses)
+        return [z3.Not(goal)]
     try:
         g = z3.Goal()
         g.add(z3.Not(goal))
